@@ -151,6 +151,36 @@ def c04_events(version, n, seed):
         for idx in np.ndindex(np.shape(xb)):
             events.append({"kind": "etau", "e": bits(float(xe[idx])), "b": bits(float(xb[idx])), "u": bits(float(xu[idx])), "E": bits(float(Eo[idx])),
                            "_m": {"ver": version, "e": float(xe[idx]), "b": float(xb[idx]), "u": float(xu[idx]), "E": float(Eo[idx]), "form": form}})
+    # the sampler itself (grid_cdf_sampler(grid)(log_e_nu, beta, u), the object tau_energy delegates to) on arrays in other MEMORY LAYOUTS:
+    # transposed and Fortran-ordered 2-D arrays, strided and reversed views - the random number at an index belongs to the event at that index
+    try:
+        from nuspacesim.utils.cdf import grid_cdf_sampler
+        sampler = grid_cdf_sampler(taus.tau_cdf_grid)
+    except Exception:
+        sampler = None
+    if sampler is not None:
+        def tri(shape):
+            return rng.uniform(6.0, 12.0, shape), rng.uniform(B[0], B[-1], shape), rng.uniform(0.01, 0.99, shape)
+        lay = []
+        e_, b_, u_ = tri((4, 3)); lay.append(("sampler: transposed 2-D", e_.T, b_.T, u_.T))
+        e_, b_, u_ = tri((3, 5)); lay.append(("sampler: Fortran 2-D", np.asfortranarray(e_), np.asfortranarray(b_), np.asfortranarray(u_)))
+        e_, b_, u_ = tri((2, 3, 4)); lay.append(("sampler: swapped axes 3-D", e_.swapaxes(0, 2), b_.swapaxes(0, 2), u_.swapaxes(0, 2)))
+        e_, b_, u_ = tri((30,)); lay.append(("sampler: strided views", e_[::3], b_[::3], u_[::3]))
+        e_, b_, u_ = tri((9,)); lay.append(("sampler: reversed views", e_[::-1], b_[::-1], u_[::-1]))
+        e_, b_, u_ = tri((4, 3)); lay.append(("sampler: transposed energies only", e_.T, np.ascontiguousarray(b_.T), np.ascontiguousarray(u_.T)))
+        for form, xe, xb, xu in lay:
+            try:
+                z = np.asarray(sampler(xe, xb, xu), dtype=float)
+                if z.shape != np.shape(xe):
+                    raise ValueError(f"result shape {z.shape} for input shape {np.shape(xe)}")
+            except Exception as ex:
+                events.append({"kind": "reject", "e": bits(float(np.ravel(xe)[0])), "raised": True,
+                               "_m": {"ver": version, "what": "sampler legal batch raised", "form": form, "exc": repr(ex)[:200]}})
+                continue
+            for idx in np.ndindex(np.shape(xe)):
+                Eo = float(z[idx]) * (10 ** float(xe[idx]))
+                events.append({"kind": "etau", "e": bits(float(xe[idx])), "b": bits(float(xb[idx])), "u": bits(float(xu[idx])), "E": bits(Eo),
+                               "_m": {"ver": version, "e": float(xe[idx]), "b": float(xb[idx]), "u": float(xu[idx]), "E": Eo, "form": form}})
     # all angles out of range / all low / single event batches
     for bvals in ([np.pi / 3] * 3, [0.0] * 3, [B[5]], [0.0], [1.2]):
         bb = np.array(bvals, dtype=float)
